@@ -133,6 +133,14 @@ def gen(tier, rng):
                 yield segcase(base, c), {"kind": "upgrade-cut", "family": "upgrade"}
         for segs, kind in splits_for(rng, stream, tier)[-4:]:
             yield segcase(base, segs), {"kind": kind, "family": "upgrade"}
+    # the HTTP/2 connection preface sent to this HTTP/1 server (505 for "PRI * HTTP/2.0", then "SM" is a malformed request
+    # line): every cut inside it
+    pri = b"PRI * HTTP/2.0\r\n\r\nSM\r\n\r\n"
+    base = cv_line(pri, [action_str([], respond_str(200, b"never", True))])
+    yield base, {"kind": "unsplit", "family": "h2-preface"}
+    for c in range(1, len(pri)):
+        yield segcase(base, [c]), {"kind": "single@every", "family": "h2-preface"}
+    yield segcase(base, [1] * len(pri)), {"kind": "one-byte", "family": "h2-preface"}
     # one long pause (longer than any plausible built-in time-out) between two segments: inside a request line, between
     # two requests, inside a streamed body
     for i, (stream, cutpos) in enumerate([
